@@ -83,6 +83,28 @@ ROUND13 = {
 }
 for _k, _v in ROUND13.items():
     ROUND12[_k] = (ROUND12.get(_k, "") + " " + _v).strip()
+# ... and after the fourteenth and fifteenth
+ROUND15 = {
+    "C01": "The image is offered to ReadMessage through several io.Reader shapes (data together with io.EOF, one byte or half a request per Read, a small bufio.Reader, trailing bytes of a next message); Time values handed to the API may carry a sub-second part.",
+    "C02": "One history is taken by two messages under two generated dictionaries that define the same names differently, interleaved; Time values with sub-second parts.",
+    "C04": "Fixed-width payloads of exactly the expected width carry boundary patterns (all zero, all ones, sign bit only).",
+    "C06": "Further messages are built (Marshal, NewAVP, AddAVP, InsertAVP) from windows and values of kept messages, lists returned by searches are appended to, and AVPs of a kept CER are used as sm.Client configuration for a dial; kept groups may have members with non-canonical lengths.",
+    "C07": "The Conn an sm.Client returns (watchdog on / off) with retried partial writes while the state machine answers DWRs; 2..4 concurrent writers of messages up to 300 KB on an in-memory SCTP association; three writers under a Server WriteTimeout with the first stalled.",
+    "C08": "Several connections with the same peer identity on one state machine (server side and one sm.Client dialling several times) with a stuck handler on one; a handler blocked loading the shared private dictionary.",
+    "C09": "Dictionary histories (Load of further documents, refused ones included, between registrations and dispatches) and the decision table through a sm.StateMachine after a handshake and through served connections.",
+    "C10": "Registrations interleaved with traffic (also between two messages of the command they concern), case variants of the built-in names, built-in messages dispatched by name, and the server histories over a multi-stream association with every message on its own stream.",
+    "C12": "Client options the handshake clauses do not mention (watchdog settings, vendor lists), CEA application lists mixing plain ids and Vendor-Specific-Application-Id groups, and the Dial entry points that take a local address over real loopback sockets.",
+    "C13": "One Client value (or a copy) dialled again with another state machine; DWRs of other peers answered while an application handler is blocked and a registration is pending; WatchdogStream set on a byte-stream transport.",
+    "C14": "Surplus success DWAs before the connection ends; real TCP / TLS loopback sockets with a peer that keeps its end open after a local Close; messages larger than the read buffer around the CloseNotify request; Server.ReadTimeout as the cause of termination.",
+    "C15": "Listeners without an address and four kinds of temporary accept error; command codes of another application as undecodable input while healthy connections use the same command; undecodable input in one transport read behind valid requests; handlers that use the Conn accessors before the fault.",
+    "C16": "Servers under the four ReadTimeout x WriteTimeout combinations whose handlers answer later than the read timeout; requests interleaved in chunks over three or more streams.",
+    "C17": "dict.Default loaded into as the very first use (child process); the Marshal path of every data type name.",
+    "C18": "AVP-typed fields holding a hand-built (grouped) AVP that was measured once and then edited through its exported fields.",
+    "C19": "Replies under concurrent writers and from a state machine per stream; the io.Reader / io.Writer adaptors against a model written from their doc comments; reply modes through the Conn's stream-control methods.",
+    "C20": "Searches by name in layered dictionaries (the same name bound to different codes per application layer) and in dictionaries built by successive loads that rebind names and codes.",
+}
+for _k, _v in ROUND15.items():
+    ROUND12[_k] = (ROUND12.get(_k, "") + " " + _v).strip()
 
 CLAIMED = {k: (v[0], v[1] + (" " + ROUND12[k] if k in ROUND12 else "") + " Exploration, not proof: the evidence reports how many cases, how many distinct non-trivial ones, and the class histogram.", T_NOTE, "DESIGN.md section 4, " + k) for k, v in CLAIMED.items()}
 
